@@ -5,5 +5,8 @@ open XotModel.Props
 #print axioms C12_frame
 #print axioms C12_frame_get
 #print axioms C12_equal
+#print axioms C12_equal_strict
+#print axioms C12_locality
+#print axioms C12_independent
 #print axioms C12_store
 #print axioms C12_store_fields
